@@ -32,6 +32,16 @@ def run_la_impl(hist):
                 a.containing_modules(list(c[1]))
             elif c[0] == "regex":
                 a.have_modules_with_names_matching(c[1])
+            elif c[0] == "peek":
+                # someone looks at the architecture while it is being defined: a LayerRule is based on it, its
+                # mapping and text are read.  Observation only: the definition must go on exactly as without it.
+                try:
+                    _, LR = impl()
+                    LR().based_on(a).layers_that()
+                    _ = a.layer_mapping
+                    str(a)
+                except Exception:  # noqa: BLE001
+                    pass
             else:
                 a.with_layer()
         except Exception as e:  # noqa: BLE001
@@ -172,17 +182,23 @@ LR_CODE = {"layers_that": 1, "should": 4, "should_only": 5, "should_not": 6, "ac
            "access_layers_except_layers_that": 9, "be_accessed_by_layers_except_layers_that": 10, "access_any_layer": 11, "be_accessed_by_any_layer": 12}
 
 
-def run_lr_impl(hist, arch_eval):
+def run_lr_impl(hist, arch_eval, shared_layered_arch=None):
+    """shared_layered_arch: a LayeredArchitecture object built earlier and used by several rules (the documented usage)."""
     _, LR = impl()
     r = LR()
     try:
         for c in hist:
             if c[0] == "based_on":
-                r.based_on(build_arch(c[1]))
+                r.based_on(shared_layered_arch if shared_layered_arch is not None else build_arch(c[1]))
             elif c[0] == "named":
                 r.are_named(c[1])
             elif c[0] == "named_list":
                 r.are_named(list(c[1]))
+            elif c[0] == "assert_applies":
+                try:
+                    r.assert_applies(arch_eval)
+                except BaseException:  # noqa: BLE001  (outcome of the intermediate evaluation is irrelevant here)
+                    pass
             else:
                 getattr(r, c[0])()
     except AssertionError as e:
@@ -195,6 +211,8 @@ def run_lr_impl(hist, arch_eval):
 def enc_lr_history(lenc: LEnc, hist):
     out = []
     for c in hist:
+        if c[0] == "assert_applies":
+            continue          # the model's builder has no intermediate evaluation: it sees the history without it
         if c[0] == "based_on":
             out.append([0, lenc.larch(c[1])])
         elif c[0] == "named":
